@@ -4,4 +4,5 @@ let () =
   | [| _; "motion" |] -> Motion_driver.run ()
   | [| _; "ptc" |] -> Ptc_driver.run ()
   | [| _; "seed" |] -> Seed_driver.run ()
+  | [| _; "sol" |] -> Sol_driver.run ()
   | _ -> prerr_endline "usage: ompl_model <heap|...>"; exit 2
